@@ -210,13 +210,18 @@ def node(cfg, depth, scope):
         kinds = [k for k in cfg.kinds
                  if depth < cfg.max_depth or k in ('text', 'var', 'ent',
                                                    'call', 'boom', 'sub',
-                                                   'return')]
+                                                   'return', 'statein')]
         memo[key] = st.one_of([node_of(cfg, k, depth, scope) for k in kinds])
     return memo[key]
 
 
+EXTRA_KINDS = {}      # kind -> function(cfg, depth, scope) -> strategy
+
+
 def node_of(cfg, k, depth, scope):
     d = depth + 1
+    if k in EXTRA_KINDS:
+        return EXTRA_KINDS[k](cfg, depth, scope)
     if k == 'text':
         return text_node(cfg.frags) if cfg.literals else \
             st.sampled_from(['a', 'b ', '\n', 'x\n']).map(
